@@ -783,6 +783,18 @@ func (vc *VC) evalCall(e *SExpr, env *Env) *Val {
 				vc.evalFail(env, "ptrtag needs a type")
 			}
 			return &Val{T: fmt.Sprintf("%d", vc.typeTag(types.NewPointer(tv.TypeV))), Ty: MathInt}
+		case "elemat":
+			// elemat(T, a, j): element j (absolute index) of the array with
+			// reference a among the arrays holding T values - lets a contract
+			// state a frame over all arrays ("only this array is written")
+			tv := vc.eval(args[0], env)
+			if !tv.IsType || tv.TypeV == nil {
+				vc.evalFail(env, "elemat needs a type")
+			}
+			a := vc.eval(args[1], env)
+			j := vc.eval(args[2], env)
+			hn, hs := vc.elemHeap(tv.TypeV)
+			return &Val{T: fmt.Sprintf("(select (select %s %s) %s)", vc.getIn(env.st, hn, hs), a.T, j.T), Ty: tv.TypeV}
 		case "toptr":
 			// toptr(x, T): the reference x (an integer, e.g. from a generic
 			// ghost map) as a *T
@@ -1358,13 +1370,105 @@ func containsWord(s, w string) bool {
 // variable that is used as a map key or ghost-map index: the terms
 // (select A q) in which A does not mention any bound variable.  Without this
 // the solver tends to pick the range guard (slen q) as the trigger.
+// indexPatterns (per property): also take slice element reads
+// (select (select E arr) (+ off q)) as triggers.
+var indexPatterns bool
+
+// indexReads finds the slice element reads (select (select E arr) (+ off q))
+// indexed by bound variable q in body.
+func indexReads(body, q string) []string {
+	var out []string
+	seen := map[string]bool{}
+	needle2 := " " + q + "))"
+	for i := 0; ; {
+		j := strings.Index(body[i:], needle2)
+		if j < 0 {
+			break
+		}
+		end := i + j + len(needle2)
+		depth, start := 0, -1
+		for k := end - 1; k >= 0; k-- {
+			if body[k] == ')' {
+				depth++
+			} else if body[k] == '(' {
+				depth--
+				if depth == 0 {
+					start = k
+					break
+				}
+			}
+		}
+		i = end
+		if start < 0 {
+			continue
+		}
+		t := body[start:end]
+		if !strings.HasPrefix(t, "(select (select ") || seen[t] {
+			continue
+		}
+		inner := t[len("(select ") : len(t)-len(needle2)]
+		if k := strings.LastIndex(inner, " (+ "); k < 0 || strings.Contains(inner, "q_") || strings.Contains(inner, "(ite ") {
+			continue
+		}
+		seen[t] = true
+		out = append(out, t)
+	}
+	return out
+}
+
 func selectPatterns(body string, qnames []string) string {
+	if indexPatterns && len(qnames) == 2 {
+		a, b := indexReads(body, qnames[0]), indexReads(body, qnames[1])
+		if len(a) > 0 && len(b) > 0 {
+			return ":pattern (" + a[0] + " " + b[0] + ")"
+		}
+	}
 	if len(qnames) != 1 {
 		return ""
 	}
 	q := qnames[0]
 	seen := map[string]bool{}
 	var pats []string
+	if indexPatterns {
+		needle2 := " " + q + "))"
+		for i := 0; ; {
+			j := strings.Index(body[i:], needle2)
+			if j < 0 {
+				break
+			}
+			end := i + j + len(needle2)
+			depth, start := 0, -1
+			for k := end - 1; k >= 0; k-- {
+				if body[k] == ')' {
+					depth++
+				} else if body[k] == '(' {
+					depth--
+					if depth == 0 {
+						start = k
+						break
+					}
+				}
+			}
+			i = end
+			if start < 0 {
+				continue
+			}
+			t := body[start:end]
+			if !strings.HasPrefix(t, "(select (select ") || seen[t] {
+				continue
+			}
+			inner := t[len("(select ") : len(t)-len(needle2)]
+			// inner = "(select E arr) (+ off"
+			if k := strings.LastIndex(inner, " (+ "); k < 0 || strings.Contains(inner, "q_") || strings.Contains(inner, "(ite ") {
+				continue
+			}
+			seen[t] = true
+			pats = append(pats, ":pattern ("+t+")")
+			if len(pats) >= 4 {
+				break
+			}
+		}
+	}
 	needle := " " + q + ")"
 	for i := 0; ; {
 		j := strings.Index(body[i:], needle)
